@@ -109,60 +109,71 @@ def newLoop (bits : Bits) (d : AttData) : List Nat → Nat → GoMap Assignment 
     | .ok false => newLoop bits d rest (i + 1) apv has
     | _ => .panic
 
+/-- `if _, ok := ap.datas[dataRoot]; !ok { ap.datas[dataRoot] = &IndexedAttData{...} }` -/
+def AttPool.storeData (p : AttPool) (d : AttData) (committee : List Nat) : Res (GoMap AttData (AttData × List Nat)) :=
+  match p.datas.get? d with
+  | some _ => .ok p.datas
+  | none => p.datas.set d (d, committee)
+
+/-- the `count == 1` branch of `AddAttestation` -/
+def AttPool.addSingle (p : AttPool) (att : Att) (committee : List Nat) : Res (AttPool × Bool) :=
+  let d := att.data
+  match singleParticipant att.bits committee with
+  | .ok v =>
+    let key : Assignment := (v, d.target)
+    match p.individual.get? key with
+    | some ex => if ex.1 ≠ d then .ok (p, false) else .ok (p, true)
+    | none =>
+      match p.individual.set key (d, att.sig) with
+      | .ok ind => .ok ({ p with individual := ind }, true)
+      | _ => .panic
+  | .err => .ok (p, false)
+  | _ => .panic
+
+/-- the aggregate branch of `AddAttestation` (after the bit-length check) -/
+def AttPool.addAggregate (cfg : Cfg) (p : AttPool) (att : Att) (committee : List Nat) : Res (AttPool × Bool) :=
+  let d := att.data
+  match p.aggregate.get? d with
+  | some ex =>
+    match covers ex.participants att.bits with
+    | .ok true =>
+      if ex.extra.length < p.maxExtra then
+        match p.aggregate.set d { ex with extra := ex.extra ++ [⟨att.bits, att.sig⟩] } with
+        | .ok ag => .ok ({ p with aggregate := ag }, true)
+        | _ => .panic
+      else .ok (p, true)
+    | .ok false =>
+      match (if cfg.orParticipants then or ex.participants att.bits else .ok ex.participants) with
+      | .ok parts =>
+        match p.aggregate.set d { ex with aggregates := ex.aggregates ++ [⟨att.bits, att.sig⟩], participants := parts } with
+        | .ok ag =>
+          match markLoop att.bits d committee 0 p.aggPerValidator with
+          | .ok apv => .ok ({ p with aggregate := ag, aggPerValidator := apv }, true)
+          | _ => .panic
+        | _ => .panic
+      | _ => .panic
+    | .err => .ok (p, false)
+    | _ => .panic
+  | none =>
+    match newLoop att.bits d committee 0 p.aggPerValidator false with
+    | .ok (apv, true) =>
+      match p.aggregate.set d ⟨[⟨att.bits, att.sig⟩], att.bits, []⟩ with
+      | .ok ag => .ok ({ p with aggregate := ag, aggPerValidator := apv }, true)
+      | _ => .panic
+    | .ok (apv, false) => .ok ({ p with aggPerValidator := apv }, false)
+    | _ => .panic
+
 /-- `AttestationPool.AddAttestation`; the Boolean is `err == nil` -/
 def AttPool.add (cfg : Cfg) (p : AttPool) (att : Att) (committee : List Nat) : Res (AttPool × Bool) :=
   let count := onesCount att.bits
   if count = 0 then .ok (p, false) else
-  let d := att.data
   -- store data and committee
-  match (match p.datas.get? d with
-         | some _ => Res.ok p.datas
-         | none => p.datas.set d (d, committee)) with
+  match p.storeData att.data committee with
   | .ok datas =>
     let p := { p with datas := datas }
-    if count = 1 then
-      match singleParticipant att.bits committee with
-      | .ok v =>
-        let key : Assignment := (v, d.target)
-        match p.individual.get? key with
-        | some ex => if ex.1 ≠ d then .ok (p, false) else .ok (p, true)
-        | none =>
-          match p.individual.set key (d, att.sig) with
-          | .ok ind => .ok ({ p with individual := ind }, true)
-          | _ => .panic
-      | .err => .ok (p, false)
-      | _ => .panic
+    if count = 1 then p.addSingle att committee
     else if cfg.aggLenCheck && bitlistLen att.bits != committee.length then .ok (p, false)
-    else
-      match p.aggregate.get? d with
-      | some ex =>
-        match covers ex.participants att.bits with
-        | .ok true =>
-          if ex.extra.length < p.maxExtra then
-            match p.aggregate.set d { ex with extra := ex.extra ++ [⟨att.bits, att.sig⟩] } with
-            | .ok ag => .ok ({ p with aggregate := ag }, true)
-            | _ => .panic
-          else .ok (p, true)
-        | .ok false =>
-          match (if cfg.orParticipants then or ex.participants att.bits else .ok ex.participants) with
-          | .ok parts =>
-            match p.aggregate.set d { ex with aggregates := ex.aggregates ++ [⟨att.bits, att.sig⟩], participants := parts } with
-            | .ok ag =>
-              match markLoop att.bits d committee 0 p.aggPerValidator with
-              | .ok apv => .ok ({ p with aggregate := ag, aggPerValidator := apv }, true)
-              | _ => .panic
-            | _ => .panic
-          | _ => .panic
-        | .err => .ok (p, false)
-        | _ => .panic
-      | none =>
-        match newLoop att.bits d committee 0 p.aggPerValidator false with
-        | .ok (apv, true) =>
-          match p.aggregate.set d ⟨[⟨att.bits, att.sig⟩], att.bits, []⟩ with
-          | .ok ag => .ok ({ p with aggregate := ag, aggPerValidator := apv }, true)
-          | _ => .panic
-        | .ok (apv, false) => .ok ({ p with aggPerValidator := apv }, false)
-        | _ => .panic
+    else p.addAggregate cfg att committee
   | _ => .panic
 
 /-- the filter of `Search` (`WithSlot`, `WithCommittee`) -/
